@@ -96,3 +96,9 @@ CLAIMS["C18"] = (
     "reproducibility of scipy's seeded draw is checked by calling twice, not modelled; NumPy computes the outlier rows in floating point (np.linspace(dtype=int)), which differs from the ideal floor in about 2% of (n,k): the driver replicates the float computation for exact correspondence on the full grid and the oracle demands k distinct rows from first to last within one row of the ideal spacing; overlapping anomalies / unsorted changepoints are outside the statement.",
     "3/C18",
 )
+CLAIMS["C10"] = (
+    "Lean 4 proof by simulation over an abstract object-heap state machine (every history) + frame-conformance and differential histories on the real objects",
+    "PARTIAL. Theorems view_step, view_after_history, outputs_depend_on_relevant_calls_only, update_is_fit_on_combined, scorer_const in Skc/Props/C10.lean: in the abstract heap (detectors holding possibly shared scorer objects; predict refits the held scorer first) the state a detector's results are computed from evolves as a function of fit / update / set_params on that detector and set_params on its scorer only, for every finite history; hence outputs equal those of a fresh object given the relevant calls.",
+    "the theorem is about the abstract heap: that the Python objects have no further mutable state (caches, aliasing beyond the modelled references, sktime clone/reset) is checked, not proved, by (i) recording every attribute write of public calls and comparing with what the model's operation writes and (ii) random histories over all detectors/scorers with shared cost objects, reused containers, in-place modified inputs, overlapping update chunks, each output compared with a fresh object's; interpretations: a scorer's last fit includes refits by holders; set_params invalidates the fit.",
+    "3/C10",
+)
